@@ -93,7 +93,7 @@ class Check(object):
         return True
 
     # ----------------------------------------------------------------------
-    def finish(self, level='model_checking', rule=''):
+    def finish(self, level='model_checking', rule='', write=True):
         os.makedirs(EVIDENCE, exist_ok=True)
         cov = dict(self.cov)
         cov.update({
@@ -113,7 +113,11 @@ class Check(object):
         ev = {'property_id': self.pid, 'tier': self.tier, 'seed': int(self.seed),
               'level': level, 'coverage': cov, 'assumptions': self.assumptions,
               'wall_s': round(time.time() - self.t0, 2), 'violations': len(self.viol)}
-        with open(os.path.join(EVIDENCE, '%s.json' % self.pid), 'w') as fh:
+        # a --replay run re-examines one stored case: it does not replace the evidence of a check run
+        target = os.path.join(EVIDENCE, '%s.json' % self.pid) if write else \
+                 os.path.join(REPLAYS, 'last-replay-%s.json' % self.pid)
+        os.makedirs(os.path.dirname(target), exist_ok=True)
+        with open(target, 'w') as fh:
             json.dump(ev, fh, indent=1, default=str)
         for k in self.known:
             print('KNOWN-FINDING: property=%s %s [%s / %s]'
